@@ -101,6 +101,23 @@ class Harness:
         if not ex.exhausted:
             self.inconclusive.append("%s: exploration stopped before the frontier was empty" % name)
 
+    def absorb_merged(self, name, m):
+        st = dict(m.stats)
+        st["exhaustive"] = m.exhausted
+        st["workers"] = m.workers
+        st["counters"] = dict(m.counters)
+        self.parts[name] = st
+        self.functions |= m.functions
+        if m.errors:
+            self.inconclusive.append("%s: worker error: %s" % (name, m.errors[0][-600:]))
+        if m.stats.get("unknown"):
+            self.inconclusive.append("%s: %d solver answers were unknown" % (name, m.stats["unknown"]))
+        if not m.exhausted and not m.errors:
+            self.inconclusive.append("%s: exploration stopped before the frontier was empty" % name)
+        for s in m.samples:
+            if len(self.samples) < 12:
+                self.samples.append(s)
+
     # ------------------------------------------------------------------------------------
     # violations
     def known_finding(self, fid):
